@@ -107,10 +107,13 @@ def ob_read(levels, ctx, header=None):
         ctx.check(lab + ".holds.column-time-length", same_multiset(ctx, ll, rl, eq=eq), note="%r vs %r" % (ll[:3], rl[:3]))
         bp = list(zip(col(m.bpms.df, "offset"), col(m.bpms.df, "bpm")))
         ctx.check(lab + ".tempo.initial", ctx.any(*[ctx.all(ctx.eq(t, 0), ctx.eq(v, h["bpm"])) for t, v in bp]))
+        prev = h["bpm"]
         for j, (pos, v) in enumerate(d["tempo"]):
             t = ref.ms_of(d, h["bpm"], pos)
-            ctx.check("%s.tempo-event%d.at-its-time" % (lab, j), ctx.any(*[ctx.all(ctx.within(x, t, (x + t + 1) * rel, strict=False), ctx.eq(y, v)) for x, y in bp]), note="event at measure %s" % pos)
-        ctx.check(lab + ".tempo.count", len(bp) == len(d["tempo"]) + 1, note="%d vs %d" % (len(bp), len(d["tempo"]) + 1))
+            # (an event that repeats the tempo already active is not a change: it may be absent)
+            ctx.check("%s.tempo-event%d.at-its-time" % (lab, j), ctx.any(ctx.eq(v, prev), *[ctx.all(ctx.within(x, t, (x + t + 1) * rel, strict=False), ctx.eq(y, v)) for x, y in bp]), note="event at measure %s" % pos)
+            prev = v
+        ctx.check(lab + ".tempo.no-invented-points", len(bp) <= len(d["tempo"]) + 1, note="%d vs %d" % (len(bp), len(d["tempo"]) + 1))
         for i, r in enumerate(hl):
             ctx.observe("%s.hit%d.t" % (lab, i), r[1])
 
